@@ -774,9 +774,23 @@ class Engine2:
                                         True, kind='fcast'))
         for x in (x,):
             k = x.get('k')
-            if k == 'ArraySubscriptExpr' and 'ext' in x:
+            ext_alias = None
+            if k == 'ArraySubscriptExpr' and 'ext' not in x and strip(x.get('b') or {}).get('k') == 'DeclRefExpr':
+                # a pointer local that names a fixed-size array (`T *const regs = rec.data;`, never reassigned): the subscript is one of the array
+                al = getattr(self.fn, '_e2_alias', None)
+                if al is None:
+                    al = alias_defs(self.fn.d)
+                    self.fn._e2_alias = al
+                d0 = al.get(strip(x['b']).get('id'))
+                t0 = (strip(d0).get('t') or {}) if d0 is not None else {}
+                t1 = (strip(d0).get('ot') or {}) if d0 is not None else {}
+                for tt_ in (t0, t1, (d0 or {}).get('ot') or {}, (d0 or {}).get('t') or {}):
+                    if tt_.get('arr'):
+                        ext_alias = tt_['arr']
+                        break
+            if k == 'ArraySubscriptExpr' and ('ext' in x or ext_alias is not None):
                 idx = self.ev(x['i'], st)
-                ext = x['ext']
+                ext = x['ext'] if 'ext' in x else ext_alias
                 ok = idx is not None and not idx.f and idx.lo >= 0 and idx.hi <= ext - 1
                 self.obl.append(Obligation2(self.fn.name, x.get('ln'), show(x), idx, ext, ok, bool(idx is not None and idx.inp)))
             elif k == 'CXXOperatorCallExpr' and short(x.get('callee', '')) == 'operator[]' and len(x.get('a', [])) == 2:
